@@ -498,6 +498,11 @@ fn run_two_lb(delta: u64, ja: u64, jb: u64, third: bool, loopback: bool, trace: 
 // ---------------------------------------------------------------- S2: scripted conflicts at every probe step
 
 fn run_scripted(step: u64, kind: u64, shape: u64, trace: bool) -> CaseResult {
+    run_scripted_case(step, kind, shape, false, trace)
+}
+
+/// `peer_other_case`: the peer spells the contested names with the ASCII letters in the other case.
+fn run_scripted_case(step: u64, kind: u64, shape: u64, peer_other_case: bool, trace: bool) -> CaseResult {
     // kind: 0 conflicting SRV response, 1 conflicting SRV+TXT, 2 conflicting A, 3 SRV+A, 4 winning probe, 5 losing probe
     let mut res = CaseResult::default();
     let mut w = World::one(lay_v4());
@@ -516,17 +521,23 @@ fn run_scripted(step: u64, kind: u64, shape: u64, trace: bool) -> CaseResult {
     w.ds[0].h.register(svc("_t._tcp.local.", inst_label, "myhost.local.", "10.0.0.5", 80, &[("k", "v")])).unwrap();
     w.poke(0);
     w.advance(step * 250 + 100);
-    let their_srv = srv(&inst, &n("other.local"), 9, 120);
-    let their_txt = txt(&inst, &[1, b'z'], 4500);
-    let their_a = a(&host, [10, 0, 0, 200], 120);
+    let flip = |nm: &Name| -> Name {
+        if !peer_other_case {
+            return nm.clone();
+        }
+        nm.iter().map(|l| l.iter().map(|b| if b.is_ascii_lowercase() { b.to_ascii_uppercase() } else { b.to_ascii_lowercase() }).collect()).collect()
+    };
+    let their_srv = srv(&flip(&inst), &n("other.local"), 9, 120);
+    let their_txt = txt(&flip(&inst), &[1, b'z'], 4500);
+    let their_a = a(&flip(&host), [10, 0, 0, 200], 120);
     match kind {
         0 => { w.deliver(0, IF0, PEER0, build(&response(vec![their_srv]))); }
         1 => { w.deliver(0, IF0, PEER0, build(&response(vec![their_srv, their_txt]))); }
         2 => { w.deliver(0, IF0, PEER0, build(&response(vec![their_a]))); }
         3 => { w.deliver(0, IF0, PEER0, build(&response(vec![their_srv, their_a]))); }
         _ => {
-            let mut q = query(vec![(host.clone(), T_ANY)]);
-            let mut r = a(&host, if kind == 4 { [10, 0, 0, 200] } else { [10, 0, 0, 1] }, 120);
+            let mut q = query(vec![(flip(&host), T_ANY)]);
+            let mut r = a(&flip(&host), if kind == 4 { [10, 0, 0, 200] } else { [10, 0, 0, 1] }, 120);
             r.flush = false;
             q.authorities.push(r);
             w.deliver(0, IF0, PEER0, build(&q));
@@ -535,7 +546,7 @@ fn run_scripted(step: u64, kind: u64, shape: u64, trace: bool) -> CaseResult {
     w.advance(6000);
     let t_query = w.now;
     let fin = final_names(&w, 0, &ty);
-    let tag = format!("conflict kind {kind} after probe {step} shape {shape_tag}");
+    let tag = format!("conflict kind {kind} after probe {step} shape {shape_tag}{}", if peer_other_case { " peer-spells-in-other-case" } else { "" });
     if let Some(f) = daemon_fault(&w, 0) {
         res.viols.push(viol(format!("C08|daemon-fault|{}|{shape_tag}", panic_sig(&f)), format!("{tag}: {f}")));
         return res;
@@ -668,13 +679,13 @@ pub fn check(tier: &str) -> i32 {
         run: Box::new(|i, tr| run_two(i * 100, 0, 125, true, tr)),
     };
     rep.run_part(&three, Duration::from_secs(300));
-    let sdims = [3u64, 6, 5];
+    let sdims = [3u64, 6, 5, 2];
     let scripted = FnPart {
         name: "S-scripted-conflicts".into(),
-        rule: "one daemon; after probe 1, 2 or 3 a scripted peer sends a conflicting response (SRV / SRV+TXT / A / SRV+A) or a winning / losing simultaneous probe; 5 instance-name shapes; afterwards every question type is asked and the service unregistered".into(),
+        rule: "one daemon; after probe 1, 2 or 3 a scripted peer sends a conflicting response (SRV / SRV+TXT / A / SRV+A) or a winning / losing simultaneous probe; 5 instance-name shapes; the peer spelling the names as registered or with the letters in the other case; afterwards every question type is asked and the service unregistered".into(),
         n: product(&sdims),
         describe: Box::new(move |i| format!("{:?}", unrank(i, &sdims))),
-        run: Box::new(move |i, tr| { let x = unrank(i, &sdims); run_scripted(x[0], x[1], x[2], tr) }),
+        run: Box::new(move |i, tr| { let x = unrank(i, &sdims); run_scripted_case(x[0], x[1], x[2], x[3] == 1, tr) }),
     };
     rep.run_part(&scripted, Duration::from_secs(300));
     rep.require("L-tiebreak-pairs", "decided");
